@@ -390,6 +390,14 @@ fn gff_model_of(r: &gff::Record) -> serde_json::Value {
            "score": c.score_mut().clone(), "strand": c.strand_mut().clone(), "phase": format!("{:?}", r.phase()), "attributes": attrs})
 }
 
+/// The phase as the plain value it stands for (through the public conversion, not through `==`
+/// with a Phase built by the same library).
+fn phase_of(p: &gff::Phase) -> Option<u8> {
+    use std::convert::TryInto;
+    let o: Result<Option<u8>, ()> = p.clone().try_into();
+    o.unwrap_or(None)
+}
+
 /// Field-by-field comparison of what was read with what was written.
 fn gff_compare(read: &gff::Record, m: &GffModel, wrote: &gff::Record) -> Result<(), (&'static str, String)> {
     let mut rc = read.clone();
@@ -400,9 +408,9 @@ fn gff_compare(read: &gff::Record, m: &GffModel, wrote: &gff::Record) -> Result<
         || *read.end() != m.end
         || *rc.score_mut() != m.score
         || *rc.strand_mut() != m.strand
-        || *read.phase() != gff::Phase::from(m.phase)
-        || read.score() != wrote.score()
-        || read.strand() != wrote.strand()
+        || phase_of(read.phase()) != m.phase
+        || read.score() != (if m.score == "." { None } else { m.score.parse::<u64>().ok() })
+        || !strand_matches(read.strand(), Some(m.strand.as_str()))
     {
         return Err(("C13.b-gff-fields", format!("fixed columns differ: read {} but wrote {}", gff_model_of(read), m.json())));
     }
@@ -458,20 +466,9 @@ fn read_bed(w: &W, data: &Rc<Vec<u8>>, io: IoCfg) -> (Vec<Item<bed::Record>>, bo
     let mut rd = bed::Reader::new(src);
     let mut items = vec![];
     let mut ended = false;
-    // API history: optionally abandon the first records() iterator after `restart_after` items and
-    // call records() again on the same reader; it must continue with the next record.
-    let restart_after = if w.chance(1, 4) { Some(w.draw(4) as usize) } else { None };
-    let mut restarted = false;
     'outer: loop {
         let mut it = rd.records();
         loop {
-            if let (Some(k), false) = (restart_after, restarted) {
-                if items.len() >= k {
-                    restarted = true;
-                    w.probe("records_iterator_restarted");
-                    continue 'outer;
-                }
-            }
             match it.next() {
                 None => {
                     ended = true;
@@ -500,20 +497,9 @@ fn read_gff(w: &W, data: &Rc<Vec<u8>>, io: IoCfg, d: Dialect) -> (Vec<Item<gff::
     let mut rd = gff::Reader::new(src, d.ty());
     let mut items = vec![];
     let mut ended = false;
-    // API history: optionally abandon the first records() iterator after `restart_after` items and
-    // call records() again on the same reader; it must continue with the next record.
-    let restart_after = if w.chance(1, 4) { Some(w.draw(4) as usize) } else { None };
-    let mut restarted = false;
     'outer: loop {
         let mut it = rd.records();
         loop {
-            if let (Some(k), false) = (restart_after, restarted) {
-                if items.len() >= k {
-                    restarted = true;
-                    w.probe("records_iterator_restarted");
-                    continue 'outer;
-                }
-            }
             match it.next() {
                 None => {
                     ended = true;
@@ -626,7 +612,9 @@ fn produce<S: std::io::Write>(wl: &Workload, sink: S) -> Result<(), String> {
 
 fn producer_phase(w: &W, wl: &Workload, io: IoCfg) -> Result<Vec<u8>, Violation> {
     let plain = Rc::new(RefCell::new(Vec::new()));
-    produce(wl, PlainSink(plain.clone())).expect("sim: plain sink cannot fail");
+    if let Err(e) = produce(wl, PlainSink(plain.clone())) {
+        return fail("C13.a-sink", format!("writer returned an error for a valid record list although its sink accepts every byte: {}", e));
+    }
     let reference = plain.borrow().clone();
     w.set_budget(8 * reference.len() as u64 + 1000);
     let sink = SimWrite::new(w, io, "sink");
@@ -680,10 +668,45 @@ fn compare_item_bed(i: usize, r: &bed::Record, wl: &Workload) -> Result<(), (&'s
     let m = &wl.bed[i];
     let got = BedModel::from_record(r, wl.k);
     let wrote = &wl.bed_recs[i];
-    if got != *m || r.name() != wrote.name() || r.score() != wrote.score() || r.strand() != wrote.strand() || r != wrote {
-        return Err(("C13.a-bed", format!("record {}: read {} but wrote {}", i, got.json(), m.json())));
+    // the typed accessors are judged against the model (columns 4, 5, 6), not against the same
+    // accessor applied to the written record
+    let exp_name = m.aux.first().map(|s| s.as_str());
+    let exp_score = m.aux.get(1).map(|s| s.as_str());
+    if got != *m || r.name() != exp_name || r.score() != exp_score || !strand_matches(r.strand(), m.aux.get(2).map(|s| s.as_str())) || r != wrote {
+        return Err((
+            "C13.a-bed",
+            format!(
+                "record {}: read {} (name() = {:?}, score() = {:?}, strand() = {}) but wrote {}",
+                i,
+                got.json(),
+                r.name(),
+                r.score(),
+                strand_sym(r.strand()),
+                m.json()
+            ),
+        ));
     }
     Ok(())
+}
+
+fn strand_sym(s: Option<bio_types::strand::Strand>) -> &'static str {
+    use bio_types::strand::Strand;
+    match s {
+        None => "none",
+        Some(Strand::Forward) => "+",
+        Some(Strand::Reverse) => "-",
+        Some(Strand::Unknown) => ".",
+    }
+}
+
+/// "+" and "-" must come back as forward / reverse; anything else as "no strand" (None, or the
+/// explicit unknown strand — both say the same).
+fn strand_matches(got: Option<bio_types::strand::Strand>, column: Option<&str>) -> bool {
+    match column {
+        Some("+") => strand_sym(got) == "+",
+        Some("-") => strand_sym(got) == "-",
+        _ => matches!(strand_sym(got), "none" | "."),
+    }
 }
 
 /// The round-trip oracle over the item list (strict, or relaxed for a surfaced EINTR).
@@ -803,7 +826,8 @@ fn roundtrip(w: &W, fmt: Fmt) -> Verdict {
         Fmt::Gff(_) => "C13.b-gff-fields",
     };
     if with_comments {
-        w.clause("C13.d-comments");
+        // judged by the ordinary round-trip clauses on an image that contains comment lines
+        w.probe("roundtrip_with_comment_lines");
     }
     match fmt {
         Fmt::Bed => {
@@ -814,10 +838,12 @@ fn roundtrip(w: &W, fmt: Fmt) -> Verdict {
                 return fail("C13.f-livelock", format!("iterator yielded {} items for a {}-byte file without ending", items.len(), data.len()));
             }
             // csv quotes the field if it also contains a quote or CR: then it is not a comment
-            if !hashed.is_empty() && !wl.bed[hashed[0]].chrom.contains(['"', '\r', '\n', '\t']) {
+            let v = judge_roundtrip(w, &items, wl.len(), eintr_on, &|i, r| compare_item_bed(i, r, &wl), clause_count);
+            // K2: only if the complete list did NOT come back (a library that starts to protect
+            // such a field is simply correct) and the field needs no csv quoting
+            if v.is_err() && !hashed.is_empty() && !wl.bed[hashed[0]].chrom.contains(['"', '\r', '\n', '\t']) {
                 return judge_k2(w, judge_roundtrip(w, &items, kept.len(), eintr_on, &|i, r| compare_item_bed(kept[i], r, &wl), clause_count), &wl.bed[hashed[0]].chrom);
             }
-            let v = judge_roundtrip(w, &items, wl.len(), eintr_on, &|i, r| compare_item_bed(i, r, &wl), clause_count);
             relabel_comments(v, with_comments)
         }
         Fmt::Gff(d) => {
@@ -828,14 +854,14 @@ fn roundtrip(w: &W, fmt: Fmt) -> Verdict {
             if !ended {
                 return fail("C13.f-livelock", format!("iterator yielded {} items for a {}-byte file without ending", items.len(), data.len()));
             }
-            if !hashed.is_empty() && !wl.gff[hashed[0]].seqname.contains(['"', '\r', '\n', '\t']) {
+            let v = judge_roundtrip(w, &items, wl.len(), eintr_on, &|i, r| gff_compare(r, &wl.gff[i], &wl.gff_recs[i]), clause_count);
+            if v.is_err() && !hashed.is_empty() && !wl.gff[hashed[0]].seqname.contains(['"', '\r', '\n', '\t']) {
                 return judge_k2(
                     w,
                     judge_roundtrip(w, &items, kept.len(), eintr_on, &|i, r| gff_compare(r, &wl.gff[kept[i]], &wl.gff_recs[kept[i]]), clause_count),
                     &wl.gff[hashed[0]].seqname,
                 );
             }
-            let v = judge_roundtrip(w, &items, wl.len(), eintr_on, &|i, r| gff_compare(r, &wl.gff[i], &wl.gff_recs[i]), clause_count);
             relabel_comments(v, with_comments)
         }
     }
@@ -883,8 +909,9 @@ fn probes_from_cuts(w: &W, data: &[u8], cuts: &[usize]) {
 // targeted damage
 
 // "0x10" is deliberately absent: the csv crate documents hexadecimal integers as valid numbers.
-const BAD_NUMBERS: [&str; 14] = [
-    "abc", "", "-5", "1.5", "184467440737095516160", " 7", "-0", "0x", "18446744073709551616", "1e3", "1_000", "7 ", "٣", "1,5",
+// blank-padded numbers (" 7") are absent too: a parser that trims blanks would be lenient, not wrong.
+const BAD_NUMBERS: [&str; 12] = [
+    "abc", "", "-5", "1.5", "184467440737095516160", "-0", "0x", "18446744073709551616", "1e3", "1_000", "٣", "1,5",
 ];
 const BAD_PHASES: [&str; 8] = ["3", "7", "255", "256", "-1", "x", "", "0.0"];
 
@@ -896,13 +923,22 @@ fn damage(w: &W, fmt: Fmt) -> Verdict {
     }
     let written = producer_phase(w, &wl, IoCfg::CLEAN)?;
     let mut lines = lines_of(&written);
-    if lines.len() != n {
-        return fail("C13.a-sink", format!("{} records were written as {} lines", n, lines.len()));
+    // The injector needs "one '\n'-terminated line per record, in order". A writer is free to lay
+    // its output out differently (header or comment lines, CRLF): comment lines are set aside, a
+    // CRLF terminator is kept, and if the layout still is not line-per-record the scenario is
+    // skipped — the layout is not something the property constrains.
+    let head: Vec<Vec<u8>> = lines.iter().take_while(|l| l.starts_with(b"#")).cloned().collect();
+    lines.drain(..head.len());
+    if lines.len() != n || lines.iter().any(|l| l.starts_with(b"#") || !l.ends_with(b"\n")) {
+        w.probe("writer_layout_not_line_per_record");
+        return Ok(());
     }
     let j = w.draw(n as u64) as usize;
     // fields of line j, split on tabs outside quotes (fields never contain tabs in this workload)
     let line = lines[j].clone();
-    let body = &line[..line.len() - 1];
+    let term_len = if line.ends_with(b"\r\n") { 2 } else { 1 };
+    let terminator = line[line.len() - term_len..].to_vec();
+    let body = &line[..line.len() - term_len];
     let mut fields: Vec<Vec<u8>> = body.split(|b| *b == b'\t').map(|f| f.to_vec()).collect();
     let nf = fields.len();
     let kind = match fmt {
@@ -963,13 +999,13 @@ fn damage(w: &W, fmt: Fmt) -> Verdict {
         }
     }
     let mut nl = fields.join(&b'\t');
-    nl.push(b'\n');
+    nl.extend_from_slice(&terminator);
     lines[j] = nl;
     w.fired("targeted_damage");
     w.sig_mix(0x400 + kind);
     // comment lines around the records (items still map one-to-one to record lines)
     let with_comments = w.chance(1, 4);
-    let mut img: Vec<u8> = Vec::new();
+    let mut img: Vec<u8> = head.concat();
     for (i, l) in lines.iter().enumerate() {
         if with_comments && w.chance(1, 2) {
             img.push(b'#');
@@ -984,7 +1020,9 @@ fn damage(w: &W, fmt: Fmt) -> Verdict {
     if j + 1 == n && w.chance(1, 3) {
         // only when the damaged line is the last one: it must be an error with or without its
         // terminator, and no other line loses anything
-        img.pop();
+        for _ in 0..term_len {
+            img.pop();
+        }
         w.fired("final_newline_stripped");
         w.probe("damaged_last_line_without_newline");
     }
@@ -1021,8 +1059,14 @@ fn damage(w: &W, fmt: Fmt) -> Verdict {
             if !ended {
                 return fail("C13.f-livelock", format!("iterator yielded {} items without ending", items.len()));
             }
-            if items.len() != n {
+            // one item per line — or the iterator ends right after reporting the damaged line
+            // (whether iteration goes on after an error is not something the property says)
+            let stopped_after_error = items.len() == j + 1 && matches!(items.last(), Some(Item::Err { .. }));
+            if items.len() != n && !stopped_after_error {
                 return fail("C13.e-malformed", format!("{}; {} lines produced {} items", what, n, items.len()));
+            }
+            if stopped_after_error && items.len() != n {
+                w.probe("reader_stopped_after_reported_error");
             }
             for (i, it) in items.iter().enumerate() {
                 match it {
@@ -1036,8 +1080,14 @@ fn damage(w: &W, fmt: Fmt) -> Verdict {
             if !ended {
                 return fail("C13.f-livelock", format!("iterator yielded {} items without ending", items.len()));
             }
-            if items.len() != n {
+            // one item per line — or the iterator ends right after reporting the damaged line
+            // (whether iteration goes on after an error is not something the property says)
+            let stopped_after_error = items.len() == j + 1 && matches!(items.last(), Some(Item::Err { .. }));
+            if items.len() != n && !stopped_after_error {
                 return fail("C13.e-malformed", format!("{}; {} lines produced {} items", what, n, items.len()));
+            }
+            if stopped_after_error && items.len() != n {
+                w.probe("reader_stopped_after_reported_error");
             }
             for (i, it) in items.iter().enumerate() {
                 match it {
@@ -1111,9 +1161,14 @@ fn garbage(w: &W, fmt: Fmt) -> Verdict {
     w.clause("C13.f-nopanic");
     w.clause("C13.f-livelock");
     // lines wholly before the cut
+    // (only meaningful if the writer lays its output out as one line per record after optional
+    // leading comment lines; otherwise only the no-panic / no-livelock clauses are judged)
+    let all_lines = lines_of(&written);
+    let head = all_lines.iter().take_while(|l| l.starts_with(b"#")).count();
+    let line_per_record = all_lines.len() - head == wl.len() && all_lines[head..].iter().all(|l| !l.starts_with(b"#") && l.ends_with(b"\n"));
     let whole = match cut {
-        Some(c) => written[..c].iter().filter(|b| **b == b'\n').count(),
-        None => 0,
+        Some(c) if line_per_record => written[..c].iter().filter(|b| **b == b'\n').count().saturating_sub(head),
+        _ => 0,
     };
     match fmt {
         Fmt::Bed => {
@@ -1273,7 +1328,7 @@ pub fn property() -> Property {
         ],
         expected_probes: &[
             "multi_valued_attribute", "key_order_differs_from_insertion", "quoted_csv_field", "csv_field_or_line_split_across_reads",
-            "damage_bad_number", "damage_bad_phase", "damage_phase_in_u8_range", "damage_column_missing", "damage_column_added", "eintr_surfaced_by_reader", "many_records_regime", "all_partitions_sweep", "first_column_starts_with_hash", "field_with_tab_or_line_feed", "many_values_record", "records_iterator_restarted", "damaged_line_follows_comment", "damaged_last_line_without_newline",
+            "damage_bad_number", "damage_bad_phase", "damage_phase_in_u8_range", "damage_column_missing", "damage_column_added", "eintr_surfaced_by_reader", "many_records_regime", "all_partitions_sweep", "first_column_starts_with_hash", "field_with_tab_or_line_feed", "many_values_record", "damaged_line_follows_comment", "damaged_last_line_without_newline",
         ],
         quick_runs: 300_000,
         thorough_runs: 20_000_000,
